@@ -23,7 +23,7 @@ CliPairs == <<
 PairIds == 1..8       \* pair 9 is the large one, used by BigInvocations only
 
 All == DiffInvocations(PairIds, PairIds \ {6}) \cup ErrorInvocations \cup TransInvocations({2, 6}) \cup BigInvocations(9)
-       \cup EdgeInvocations(10..21) \cup InPlaceInvocations({2})
+       \cup EdgeInvocations(10..21) \cup InPlaceInvocations({2}) \cup FifoInvocations({2, 7})
 ASSUME ndJsonSerialize(IOEnv.JDV_OUT \o "/invocations.ndjson", SetToSeq(All))
 ASSUME ndJsonSerialize(IOEnv.JDV_OUT \o "/clipairs.ndjson", CliPairs)
 ASSUME PrintT(<<"JDV-STAT", "invocations", Cardinality(All)>>)
